@@ -352,4 +352,41 @@ theorem Estimate.mk_ok {cs : List (Incomplete × Rat)} {e : Estimate} (hmk : Est
     simp only [Except.ok.injEq] at hmk; subst hmk
     exact ⟨rfl, rfl, by simpa using hb⟩
 
+/-! ### the internal-error outcome is unreachable -/
+
+
+theorem RawData.no_internal (d : RawData) (T : Rat) :
+    d.CpoR T ≠ .error .internal ∧ d.HoRT T ≠ .error .internal ∧ d.SoR T ≠ .error .internal := by
+  unfold RawData.CpoR RawData.HoRT RawData.SoR checkRange
+  simp only
+  refine ⟨?_, ?_, ?_⟩ <;> split_ifs <;> simp
+
+theorem convertErr_internal {r : Except Err Rat} (h : r ≠ .error .internal) : convertErr r ≠ .error .internal := by
+  unfold convertErr
+  split
+  · simp
+  · exact h
+
+/-- the `AttributeError` outcome (`_correlation` missing) is unreachable for constructed objects -/
+theorem Incomplete.no_internal {c : Incomplete} (hw : c.WF) (T : Rat) :
+    (c.CpoR T).1 ≠ .error .internal ∧ (c.HoRT T).1 ≠ .error .internal ∧ (c.SoR T).1 ≠ .error .internal := by
+  by_cases hcp : c.cp = []
+  · unfold Incomplete.CpoR Incomplete.HoRT Incomplete.SoR
+    rw [hcp]
+    refine ⟨by simp, ?_, ?_⟩
+    · cases c.Href <;> simp
+    · cases c.Sref <;> simp
+  · obtain ⟨ip, d, _, hc⟩ := hw.hascp hcp
+    obtain ⟨q, qs, hq⟩ := List.exists_cons_of_ne_nil hcp
+    obtain ⟨n1, n2, n3⟩ := d.no_internal T
+    unfold Incomplete.CpoR Incomplete.HoRT Incomplete.SoR
+    rw [hq, hc]
+    refine ⟨convertErr_internal n1, ?_, ?_⟩
+    · cases c.Href with
+      | none => simp
+      | some h => exact convertErr_internal n2
+    · cases c.Sref with
+      | none => simp
+      | some s => exact convertErr_internal n3
+
 end PGA.Thermo
